@@ -102,6 +102,14 @@ class Run:
             #  makes attributing a call to one of two identical watchers ambiguous)
             ns['p3'] = param.Parameter(default=['held', idx], constant=True)
             self.const = {'p3'}
+        self.shared_pobj = level == 'instance' and rng.random() < 0.2
+        if self.shared_pobj:
+            # one of the watched parameters has no per-instance Parameter object (per_instance=False): values, watchers and
+            # dispatch state are still those of the instance
+            ns['p2'] = param.Parameter(per_instance=False)
+            # (no Parameter-attribute events in these runs: the attributes of a shared Parameter object belong to the class,
+            #  whether a batch opened on an instance covers their announcement is not something the statement settles)
+            self.feats = feats = set(feats) - {'slots'}
         cls = type(f'W{idx}', (param.Parameterized,), ns)
         self.cls = cls
         self.o = cls() if level == 'instance' else cls
@@ -714,7 +722,15 @@ class Run:
             self.do_update(op[1])
         elif k == 'updatectx':
             olds = {n: self.model[(n, 'value')] for n in op[1]}
-            r = self.do_update(op[1])
+            gen, extra = None, {}
+            if self.rng.random() < 0.3:
+                # the temporary override also covers a dynamic parameter that currently holds a value generator: leaving the
+                # block must put the generator back (not a number drawn from it)
+                gen = _Gen()
+                self.o.dyn = gen
+                extra = {'dyn': 0.25}
+                self.stats['dynamic_in_update_context'] = self.stats.get('dynamic_in_update_context', 0) + 1
+            r = self.do_update(op[1], extra)
             self.log('updatectx-enter')
             with r:
                 for sub in op[2]:
@@ -723,6 +739,9 @@ class Run:
                 self.pre_update(back)
             self.post_update(back)
             self.log('updatectx-exit')
+            if gen is not None and self.o.param.get_value_generator('dyn') is not gen:
+                self.err('update-context-did-not-restore/value-generator', f'dyn held a value generator before `with update(dyn=0.25, ...)`, '
+                         f'after the block it holds {self.o.param.get_value_generator("dyn")!r}')
         elif k == 'trigger':
             self.stats['triggers'] += 1
             if self.batched():
@@ -806,11 +825,11 @@ class Run:
             if self.model[key] is v and self.current(key) is not v:
                 self.err('update-did-not-install-value', f'{key}')
 
-    def do_update(self, kv):
+    def do_update(self, kv, extra=None):
         self.stats['ops'] += 1
         self.log('update', kv)
         self.pre_update(kv)
-        r = self.o.param.update(**kv)
+        r = self.o.param.update(**kv, **(extra or {}))
         self.post_update(kv)
         return r
 
